@@ -722,3 +722,66 @@ func ruleORD6(p *Program) *RuleResult {
 	r.floor("cells", 500)
 	return r
 }
+
+// ORD8: DateTime comparison across layouts compares components of values that
+// were normalised to UTC on every path (the offset must not influence which
+// calendar fields are compared).
+func ruleORD8(p *Program) *RuleResult {
+	r := newResult("ORD8")
+	for _, m := range []string{"TryEqual", "Less"} {
+		fn, err := p.Method("fhirpath/system", "DateTime", m)
+		if err != nil {
+			return r.anchorFail(err)
+		}
+		n := 0
+		for _, b := range fn.Blocks {
+			for _, ins := range b.Instrs {
+				c, ok := ins.(*ssa.Call)
+				if !ok || c.Common().StaticCallee() == nil || c.Common().StaticCallee().Name() != "getComponents" {
+					continue
+				}
+				n++
+				r.count("component_reads", 1)
+				key := fmt.Sprintf("DateTime.%s|getComponents#%d", m, n)
+				okNorm := false
+				why := "the value is not a local copy whose time was replaced by its UTC() form"
+				if ld, ok := c.Common().Args[0].(*ssa.UnOp); ok {
+					if al, ok := ld.X.(*ssa.Alloc); ok {
+						for _, ref := range *al.Referrers() {
+							fa, ok := ref.(*ssa.FieldAddr)
+							if !ok || fieldName(fa) != "dateTime" {
+								continue
+							}
+							for _, r2 := range *fa.Referrers() {
+								st, ok := r2.(*ssa.Store)
+								if !ok || st.Addr != ssa.Value(fa) {
+									continue
+								}
+								uc, ok := st.Val.(*ssa.Call)
+								if !ok || uc.Common().StaticCallee() == nil || uc.Common().StaticCallee().RelString(nil) != "(time.Time).UTC" {
+									continue
+								}
+								if st.Block() == b || st.Block().Dominates(b) {
+									okNorm = true
+								} else {
+									why = "the UTC() normalisation at " + p.instrPos(st) + " does not dominate the comparison (it is conditional)"
+								}
+							}
+						}
+					}
+				}
+				if okNorm {
+					r.ok(key, fmt.Sprintf("DateTime.%s compares the components of a value normalised to UTC on every path", m), p.instrPos(ins), "a store of UTC() to the local copy dominates the getComponents call", true)
+				} else {
+					r.bad(key, fmt.Sprintf("DateTime.%s compares components of a value that is not normalised to UTC on every path: %s", m, why), p.instrPos(ins),
+						"values with different offsets are compared by their local calendar fields: an offset that moves the instant across midnight changes the verdict of =, <, >")
+				}
+			}
+		}
+		if n < 2 {
+			r.undecided("DateTime."+m+"|getComponents", fmt.Sprintf("DateTime.%s reads the components of %d values (2 expected)", m, n), p.pos(fn.Pos()), "shape changed")
+		}
+	}
+	r.floor("component_reads", 4)
+	return r
+}
